@@ -3,7 +3,7 @@
    classes excluded by a guard, and Print Assumptions. *)
 From Coq Require Import ZArith List Bool.
 From Coq.Strings Require Import Byte.
-From Verif Require Import Lib.Bytes Lib.Py Model.Wire Proofs.CompactSize Proofs.ScriptNum Proofs.ScriptCodec.
+From Verif Require Import Lib.Bytes Lib.Py Model.Wire Proofs.CompactSize Proofs.ScriptNum Proofs.ScriptCodec Proofs.VarStr.
 From Verif Require Import Gen.GenFuncs Glue.WireGlue.
 Import ListNotations.
 Open Scope Z_scope.
@@ -127,6 +127,42 @@ Example whole_script_heuristic_refuted :
   lib_serialize_items [IData s] = Some (x40 :: s).
 Proof. eexists. repeat split; vm_compute; reflexivity. Qed.
 
+(* --- corollaries: one encoding per value --- *)
+Theorem cs_injective : forall a b e, lib_cs_enc a = Some e -> lib_cs_enc b = Some e -> a = b.
+Proof. exact VarStr.cs_injective. Qed.
+
+Theorem scriptnum_injective : forall a b, lib_encode_num a = lib_encode_num b -> a = b.
+Proof. exact VarStr.scriptnum_injective. Qed.
+
+Theorem scriptnum_minimal_unique : forall x y,
+  core_minimal x = true -> core_minimal y = true -> lib_decode_num x = lib_decode_num y -> x = y.
+Proof. exact VarStr.scriptnum_minimal_unique. Qed.
+
+(* --- varstr: every byte string but the single zero byte (the single zero byte is recorded under C06 as known finding single_zero_byte_item) --- *)
+Theorem varstr_total : forall s, lib_varstr s <> None <-> Z.of_nat (length s) < 2 ^ 64.
+Proof. exact varstr_domain. Qed.
+
+Theorem varstr_roundtrip : forall s e rest, s <> [x00] -> lib_varstr s = Some e ->
+  exists p, lib_cs_enc (Z.of_nat (length s)) = Some p /\ e = p ++ s /\
+            lib_cs_dec (e ++ rest) = (Z.of_nat (length s), length p) /\
+            firstn (length s) (skipn (length p) (e ++ rest)) = s /\
+            skipn (length s) (skipn (length p) (e ++ rest)) = rest.
+Proof. exact VarStr.varstr_roundtrip. Qed.
+
+Theorem varstr_prefix_free : forall a b ea eb ra rb,
+  a <> [x00] -> b <> [x00] -> lib_varstr a = Some ea -> lib_varstr b = Some eb ->
+  ea ++ ra = eb ++ rb -> a = b /\ ra = rb.
+Proof. exact VarStr.varstr_prefix_free. Qed.
+
+(* non-vacuity and the witness for the excluded string *)
+Example varstr_holds_somewhere :
+  [x01; x02] <> [x00] /\ lib_varstr [x01; x02] = Some [x02; x01; x02] /\
+  lib_varstr (repeat x00 253) = Some (xfd :: xfd :: x00 :: repeat x00 253).
+Proof. split; [discriminate|]. split; vm_compute; reflexivity. Qed.
+
+Example varstr_zero_byte_refuted : lib_varstr [x00] = lib_varstr [] /\ lib_varstr [x00] = Some [x00].
+Proof. exact varstr_zero_collides. Qed.
+
 Print Assumptions source_is_model.
 Print Assumptions cs_total.
 Print Assumptions cs_roundtrip.
@@ -144,3 +180,9 @@ Print Assumptions push_shortest.
 Print Assumptions push_roundtrip.
 Print Assumptions script_roundtrip_plain.
 Print Assumptions script_roundtrip_lib.
+Print Assumptions cs_injective.
+Print Assumptions scriptnum_injective.
+Print Assumptions scriptnum_minimal_unique.
+Print Assumptions varstr_total.
+Print Assumptions varstr_roundtrip.
+Print Assumptions varstr_prefix_free.
